@@ -436,3 +436,106 @@ func countOps(e *tw.Expr, kinds map[string]bool) int {
 }
 
 func (e *dataEnv) String() string { return "dataEnv" + mustJSON(e.D) }
+
+// ---------------------------------------------------------------- arbitrary data values
+
+var nastyStrings = []string{"", "a", "é", "日本", "<b>&amp;</b>", "a\"b'c", "\xff\xfe", "a\x00b", "   ", "0", "-12", "3.5", "{{ x }}", "@if(true)", "line1\nline2", "\\"}
+
+// genSpecValue draws a Go value of any supported type (and, when unsupported
+// is true, possibly a value of an unsupported kind somewhere inside).
+func genSpecValue(depth int, unsupported bool) *rapid.Generator[*spec.Value] {
+	return rapid.Custom(func(rt *rapid.T) *spec.Value {
+		max := 12
+		if depth <= 0 {
+			max = 6
+		}
+		if unsupported && rapid.IntRange(0, 9).Draw(rt, "unsup") == 0 {
+			return spec.Unsupported(rapid.SampledFrom([]string{spec.TChan, spec.TFunc, spec.TComplex, spec.TArray}).Draw(rt, "unsupKind"))
+		}
+		switch rapid.IntRange(0, max).Draw(rt, "valueForm") {
+		case 0, 1:
+			return genIntValue().Draw(rt, "int")
+		case 2:
+			f := rapid.SampledFrom([]float64{0, 0.5, -1.5, 2.25, 1e10, 1e-7, 3, 123456.789, math.MaxFloat64, math.SmallestNonzeroFloat64, math.Inf(1), math.Inf(-1), math.NaN(), negZero()}).Draw(rt, "float")
+			if rapid.IntRange(0, 3).Draw(rt, "f32") == 0 {
+				return spec.Float32(float32(f))
+			}
+			return spec.Float64(f)
+		case 3:
+			return spec.Bool(rapid.Bool().Draw(rt, "bool"))
+		case 4, 5:
+			return spec.BytesString([]byte(rapid.SampledFrom(nastyStrings).Draw(rt, "str")))
+		case 6:
+			return spec.NilAny()
+		case 7:
+			if rapid.IntRange(0, 2).Draw(rt, "nilPtr") == 0 {
+				return spec.NilPtr(spec.T(rapid.SampledFrom([]string{spec.TInt, spec.TString, spec.TFloat64, spec.TBool}).Draw(rt, "nilPtrT")))
+			}
+			return spec.Ptr(genSpecValue(depth-1, unsupported).Draw(rt, "ptrElem"))
+		case 8:
+			n := rapid.IntRange(0, 3).Draw(rt, "sliceLen")
+			items := make([]*spec.Value, n)
+			for i := range items {
+				items[i] = spec.Any(genSpecValue(depth-1, unsupported).Draw(rt, "sliceElem"))
+				if rapid.IntRange(0, 5).Draw(rt, "nilElem") == 0 {
+					items[i] = spec.NilAny()
+				}
+			}
+			return spec.Slice(spec.T(spec.TAny), items...)
+		case 9:
+			// typed slice
+			n := rapid.IntRange(0, 3).Draw(rt, "tsliceLen")
+			first := genSpecValue(depth-1, false).Draw(rt, "tsliceFirst")
+			items := make([]*spec.Value, n)
+			for i := range items {
+				items[i] = cloneSpecWithSameType(rt, first)
+			}
+			return spec.Slice(first.T, items...)
+		case 10:
+			n := rapid.IntRange(0, 3).Draw(rt, "mapLen")
+			keys := rapid.SliceOfNDistinct(rapid.SampledFrom([]string{"a", "b", "Key", "k1", "", "x y", "é"}), n, n, rapid.ID[string]).Draw(rt, "mapKeys")
+			vals := make([]*spec.Value, n)
+			for i := range vals {
+				vals[i] = spec.Any(genSpecValue(depth-1, unsupported).Draw(rt, "mapVal"))
+			}
+			return spec.Map(spec.T(spec.TAny), keys, vals)
+		case 11:
+			n := rapid.IntRange(0, 3).Draw(rt, "structLen")
+			names := rapid.SliceOfNDistinct(rapid.SampledFrom([]string{"Name", "Age", "Items", "Inner", "X", "URL"}), n, n, rapid.ID[string]).Draw(rt, "fields")
+			vals := make([]*spec.Value, n)
+			for i := range vals {
+				vals[i] = genSpecValue(depth-1, unsupported).Draw(rt, "fieldVal")
+			}
+			return spec.Struct(names, vals)
+		default:
+			switch rapid.IntRange(0, 2).Draw(rt, "fixed") {
+			case 0:
+				return &spec.Value{T: spec.FixedType("WithHidden"), Items: []*spec.Value{spec.String("nm"), spec.IntOf(spec.TInt, 41)}}
+			case 1:
+				return &spec.Value{T: spec.FixedType("Embeds"), Items: []*spec.Value{{T: spec.FixedType("Inner"), Items: []*spec.Value{spec.String("ti"), spec.IntOf(spec.TInt, 2)}}, spec.IntOf(spec.TInt, 3)}}
+			default:
+				one := spec.IntOf(spec.TInt, 1)
+				return &spec.Value{T: spec.FixedType("PtrFields"), Items: []*spec.Value{
+					rapid.SampledFrom([]*spec.Value{spec.NilPtr(spec.T(spec.TInt)), spec.Ptr(one)}).Draw(rt, "pfP"),
+					spec.NilPtr(spec.T(spec.TString)),
+					rapid.SampledFrom([]*spec.Value{spec.NilPtr(spec.FixedType("Inner")), spec.Ptr(&spec.Value{T: spec.FixedType("Inner"), Items: []*spec.Value{spec.String("t"), one}})}).Draw(rt, "pfIn"),
+					rapid.SampledFrom([]*spec.Value{spec.NilAny(), spec.Any(spec.String("any"))}).Draw(rt, "pfA"),
+				}}
+			}
+		}
+	})
+}
+
+// cloneSpecWithSameType returns a value of v's type (same scalars perturbed).
+func cloneSpecWithSameType(rt *rapid.T, v *spec.Value) *spec.Value {
+	c := *v
+	switch v.T.K {
+	case spec.TInt, spec.TInt8, spec.TInt16, spec.TInt32, spec.TInt64, spec.TUint, spec.TUint8, spec.TUint16, spec.TUint32, spec.TUint64:
+		c.I = clampInt(v.T.K, rapid.Int64Range(0, 20).Draw(rt, "ci"))
+	case spec.TString:
+		c.S, c.SBytes = rapid.SampledFrom([]string{"p", "q", ""}).Draw(rt, "cs"), nil
+	case spec.TBool:
+		c.B = rapid.Bool().Draw(rt, "cb")
+	}
+	return &c
+}
